@@ -181,6 +181,10 @@ func (h *cwHist) checkQuery(run *cwRun, tr *cwTaskRun, op COp, qs, qe int, at ma
 		if run.seqBehind != "" {
 			a["reload_left_seq_behind"] = "yes"
 		}
+		a["unlisted_files_before_restart"] = "no"
+		if run.unlistedBeforeRestart == "yes" {
+			a["unlisted_files_before_restart"] = "yes"
+		}
 		a["wal_parts"] = "1"
 		if run.c.Knobs.Partitions > 1 {
 			a["wal_parts"] = "n"
@@ -204,6 +208,9 @@ func (h *cwHist) checkQuery(run *cwRun, tr *cwTaskRun, op COp, qs, qe int, at ma
 					files += "\n  when the sequencer reload finished:" + run.seqBehindTxt
 				}
 			}
+		}
+		if run.unlistedBeforeRestart == "yes" {
+			files += "\n  at an earlier clean close of this run:" + run.unlistedTxt
 		}
 		return sviol(prop, kind, fmt.Sprintf("%s (query of %s slots %d..%d desc=%v, started at step %d, finished at step %d, in flight meanwhile: %s): %s%s",
 			who, sMstName(m), op.A, op.B, op.Desc, qs, qe, at["inflight"], detail, files), a)
